@@ -106,7 +106,9 @@ type Store struct {
 
 var errInjectedSave = errors.New("injected: message store is unavailable")
 
-func NewStore(w *World) *Store { return &Store{w: w, Real: memory.NewStorage(), FailSave: map[int]bool{}} }
+func NewStore(w *World) *Store {
+	return &Store{w: w, Real: memory.NewStorage(), FailSave: map[int]bool{}}
+}
 
 func (s *Store) delay(op string) {
 	simrt.Yield("store." + op)
